@@ -119,7 +119,8 @@ def _bonds_from_distance(graph, nodes=None, non_edges=None, fudge=1.2):
     if len(positions):  # pylint: disable=len-as-condition
         positions = np.atleast_2d(positions)
         tree = KDTree(positions)
-        pairs = tree.sparse_distance_matrix(tree, max_dist * fudge)
+        # max_dist already includes the fudge factor.
+        pairs = tree.sparse_distance_matrix(tree, max_dist)
     else:
         pairs = {}
 
